@@ -80,6 +80,13 @@ def step : List String → String
     " ".intercalate (hs.map fun h => match bytesOfHex h with
       | some b => (match parseNumber b with | some n => toString n | none => "none")
       | none => "bad-op")
+  | ["numall", h] => match bytesOfHex h with
+    -- parseNumber on s followed by each of `,` `]` `}` space, nothing, `a`; then the two grammar voices on s
+    | some b =>
+      let one (d : Bytes) : String := match parseNumber (b ++ d) with | some n => toString n | none => "none"
+      " ".intercalate [one [0x2c#8], one [0x5d#8], one [0x7d#8], one [0x20#8], one [], one [0x61#8],
+        bool01 (parseNumberFixed b == some b.length) ++ bool01 (Ref.isNumber b)]
+    | none => "bad-op"
   | ["parsenumberfixed", h] => match bytesOfHex h with
     | some b => (match parseNumberFixed b with | some n => toString n | none => "none")
     | none => "bad-op"
